@@ -261,6 +261,36 @@ def check(case):
                     names = obj.get_parameter_names()
                     case.fail('mismatch', 'd/d[%d] (%s): got %r expected %r' % (
                         k, names[k] if k < len(names) else '?', g[k], gw[k]))
+        if s['kind'] in ('indiv', 'sbml') and s['prior'] is None and not s.get('fixed') and len(x) >= 2:
+            # gradient after a fix / release history on the same object (sensitivity bookkeeping of
+            # the reduced wrappers must follow the free set)
+            with case.clause('gradient_after_fix_release'):
+                names = obj.get_parameter_names()
+                k0 = len(x) // 2 if s['kind'] == 'indiv' else 0
+                k0 = min(k0, (s['ll']['n_par'] if 'll' in s else len(x)) - 1)
+                obj.fix_parameters({names[k0]: float(x[k0])})
+                keep = [i for i in range(len(x)) if i != k0]
+                sc_f, g_f = obj.evaluateS1(x[keep].copy())
+                gw_all = ref.cgrad(f, x)
+                rt = 1e-5 if s['kind'] == 'sbml' else 1e-7
+                case.close(sc_f, plain, rtol=1e-9 if s['kind'] == 'indiv' else 1e-7, what='score with one parameter fixed at its value')
+                case.close(g_f, gw_all[keep], rtol=rt, atol=1e-7 * float(np.max(np.abs(gw_all))) if s['kind'] == 'sbml' else 0.0,
+                           what='gradient restricted to the free parameters')
+                # swap which parameter is fixed in ONE call (same count), then release everything
+                k1 = (k0 + 1) % max(1, (s['ll']['n_par'] if 'll' in s else len(x)))
+                if k1 != k0:
+                    obj.fix_parameters({names[k0]: None, names[k1]: float(x[k1])})
+                    keep1 = [i for i in range(len(x)) if i != k1]
+                    sc_s, g_s = obj.evaluateS1(x[keep1].copy())
+                    case.close(g_s, gw_all[keep1], rtol=rt,
+                               atol=1e-7 * float(np.max(np.abs(gw_all))) if s['kind'] == 'sbml' else 0.0,
+                               what='gradient after swapping the fixed parameter in one call')
+                    obj.fix_parameters({names[k1]: None})
+                else:
+                    obj.fix_parameters({names[k0]: None})
+                sc_r, g_r = obj.evaluateS1(x.copy())
+                case.close(g_r, gw_all, rtol=rt, atol=1e-7 * float(np.max(np.abs(gw_all))) if s['kind'] == 'sbml' else 0.0,
+                           what='gradient after releasing every parameter again')
         with case.clause('order_independence'):
             again = obj(x.copy())
             case.close(again, plain, rtol=0, atol=0, what='value after a gradient evaluation')
